@@ -194,8 +194,13 @@ def r3_partition(idx, r):
     r.require(ok, "overlap-formula", f, msg=f"overlap = min(ztop, zUpper) - max(zbottom, zLower): {env.get('top')}, {env.get('bottom')}, {env.get('heightHere')}")
     ap = next((c for c in iter_calls(f.node) if norm(c.func) == "blocksHere.append"), None)
     conds = [norm(t) for t, p in path_conditions(f.node, ap) if p] if ap is not None else []
-    r.require(ap is not None and norm(ap.args[0]) == "(b, heightHere)" and conds == ["b.p.ztop >= zLower and b.p.zbottom <= zUpper", "heightHere / b.getHeight() > EPS"], "positive-overlaps-listed", f, node=ap,
+    # the relative-sliver filter, as a quotient or (zero-height safe) as a product
+    r.require(ap is not None and norm(ap.args[0]) == "(b, heightHere)" and conds[:1] == ["b.p.ztop >= zLower and b.p.zbottom <= zUpper"] and len(conds) == 2
+              and conds[1] in ("heightHere / b.getHeight() > EPS", "heightHere > EPS * b.getHeight()", "heightHere > b.getHeight() * EPS"), "positive-overlaps-listed", f, node=ap,
               msg=f"blocks with a positive overlap are listed with that overlap: {conds}")
+    dv = [x for x in walk_local(f.node) if isinstance(x, ast.BinOp) and isinstance(x.op, ast.Div) and "getHeight()" in norm(x.right)]
+    r.require(not dv, "no-division-by-a-block-height", f, node=dv[0] if dv else None,
+              msg=f"`{norm(dv[0]) if dv else ''}` divides by a block's height: an assembly holding a block of zero height makes every query between elevations raise ZeroDivisionError")
     chk = next((n for n in walk_local(f.node) if isinstance(n, ast.If) and any(isinstance(x, ast.Raise) for x in n.body) and "totalHeight" in norm(n.test)), None)
     r.require(chk is not None and norm(chk.test).startswith("abs(totalHeight - expectedHeight) >"), "sum-checked", f, node=chk, msg="the overlaps must be checked to sum to the interval length, loudly")
     acc = [n for n in walk_local(f.node) if isinstance(n, ast.AugAssign) and norm(n.target) == "totalHeight"]
@@ -412,6 +417,29 @@ def r6_targets_and_sizes(idx, r):
         raise AnchorMissing("uniformMesh: use of core.p.axialMesh as the target mesh")
 
 
+def r7_split_shares(idx, r):
+    """Assembly.adjustResolution chops a tall block into pieces that are deep copies of it, each set to the height of a reference block.  A
+    deep copy carries the FULL value of every volume-integrated parameter (power, moles of heavy metal ...): unless each piece is given its
+    height share, the total of the pieces is the original times the number of pieces."""
+    f = idx.method("armi.reactor.assemblies.Assembly", "adjustResolution")
+    loops = [n for n in walk_local(f.node) if isinstance(n, ast.While)]
+    cp = [(lp, s_) for lp in loops for s_ in iter_stores(lp) if isinstance(s_.value, ast.Call) and dotted(s_.value.func) == "copy.deepcopy" and isinstance(s_.node, ast.Name)]
+    if len(cp) != 1:
+        raise AnchorMissing("Assembly.adjustResolution: the splitting loop with `newB = copy.deepcopy(b)`")
+    lp, piece = cp[0]
+    pv = piece.attr
+    inner = [n for n in ast.walk(lp) if isinstance(n, ast.For) and "VOLUME_INTEGRATED" in norm(n.iter) and pv + ".p" in norm(n.iter)]
+    scaled = [s_ for n in inner for s_ in iter_stores(n) if s_.kind == "subscript" and norm(s_.node.value) == pv + ".p"]
+    r.require(bool(scaled), "adjustResolution:pieces-carry-their-height-share", f, node=piece.stmt,
+              msg=f"every piece is `{norm(piece.stmt)}` with only its height changed: each piece keeps the whole block's volume-integrated parameters, so a block of power 200 split in two reports "
+                  "400 (atoms are conserved, integrated parameters are not)")
+    if scaled:
+        env = single_assign_env(f.node)
+        fac = {nm for s_ in scaled for nm in (x.id for x in ast.walk(s_.value) if isinstance(x, ast.Name))}
+        share = [nm for nm in fac if nm in env and isinstance(env[nm], ast.BinOp) and isinstance(env[nm].op, ast.Div) and "getHeight()" in norm(env[nm].left)]
+        r.require(bool(share), "adjustResolution:share-is-a-height-ratio", f, node=scaled[0].stmt, msg="the share given to a piece is its height over the height of the block being split")
+
+
 def run(idx, chk):
     chk.explanation = (
         "C11: the two overlap-mapping functions are typed with role generators for overlap / destination / source heights: densities scale by "
@@ -433,3 +461,5 @@ def run(idx, chk):
                  necessary="height-weighted mean of the overlapped source values")
     chk.run_rule("R11.6", "the homogenised copy has the block's current pitch; anchors pair bottom/min and top/max; a target core mesh is refreshed before use", lambda r: r6_targets_and_sizes(idx, r), floor=6,
                  necessary="re-meshing conserves the atoms of every nuclide and keeps the outermost material boundaries")
+    chk.run_rule("R11.7", "pieces of a split block carry their height share of the volume-integrated parameters", lambda r: r7_split_shares(idx, r), floor=2,
+                 necessary="volume-integrated totals are conserved by re-meshing")
